@@ -158,7 +158,9 @@ impl Module for M {
          empty strings and images, null font); rejection ops with out-of-range coordinates / indices; scale.adapter: representative shapes, images, text and target \
          calls drawn through every adapter kind, every ordered pair of kinds and some 3-deep stacks (areas / offsets at display scale, partly or wholly outside, negative, empty) on \
          320x240 / 1024x768 / 1024x1024 / off-origin / empty roots, then seeded random stacks x jobs. Every op runs all constructors, queries \
-         and draw() under an armed allocation counter, overflow checks and debug assertions. Non-trivial: the op iterated at least one pixel or point; distinct = op text."
+         and draw() under an armed allocation counter, overflow checks and debug assertions. Model side of the result lines (plain models, Driver/Scale.lean): scale.shape for every \
+         shape kind when the styled bounding box and the primitive's box are at most 100 000 px (arcs / sectors through trailing `hk` hook tokens), scale.image, scale.text for a built-in font with \
+         both or neither of text / background colour, scale.reject sub; every other scale.shape / scale.text / scale.reject / scale.dotted op is oracle only (`skip`). Non-trivial: the op iterated at least one pixel or point; distinct = op text."
     }
 
     fn generate(&self, _pid: &str, tier: Tier, rng: &mut Rng, emit: &mut dyn FnMut(String)) {
